@@ -481,6 +481,9 @@ func (m *C10) checkOpens(w *chain.World, ctx sdk.Context, mt string) {
 		var h math.LegacyDec
 		var herr error = perr
 		if perr == nil {
+			// the health a liquidation check in this very block would find: borrow interest accrued
+			// up to now (a no-op when the handler has just accrued it, as opening and consolidating do)
+			pk.UpdateMTPBorrowInterestUnpaidLiability(sub, &p)
 			h, herr = pk.GetMTPHealth(sub, p, ammPool, "uusdc")
 		}
 		if m.st.Eval("perpopen/"+key, fmt.Sprint(p.Custody, p.Liabilities)) {
